@@ -313,8 +313,13 @@ impl NormalizedDurationRecord {
         self.norm
     }
 
+    /// Equivalent: `InternalDurationSign`
     pub(crate) fn sign(&self) -> TemporalResult<Sign> {
-        Ok(self.date.sign())
+        let date_sign = self.date.sign();
+        if date_sign != Sign::Zero {
+            return Ok(date_sign);
+        }
+        Ok(self.norm.sign())
     }
 }
 
@@ -549,12 +554,16 @@ impl NormalizedDurationRecord {
                 tz.get_epoch_nanoseconds_for(start, Disambiguation::Compatible, provider)?;
             let end_epoch_ns =
                 tz.get_epoch_nanoseconds_for(end, Disambiguation::Compatible, provider)?;
-            (start_epoch_ns, end_epoch_ns)
+            (start_epoch_ns.0, end_epoch_ns.0)
         // 7. If timeZoneRec is unset, then
         } else {
             // a. Let startEpochNs be GetUTCEpochNanoseconds(start.[[Year]], start.[[Month]], start.[[Day]], start.[[Hour]], start.[[Minute]], start.[[Second]], start.[[Millisecond]], start.[[Microsecond]], start.[[Nanosecond]]).
             // b. Let endEpochNs be GetUTCEpochNanoseconds(end.[[Year]], end.[[Month]], end.[[Day]], end.[[Hour]], end.[[Minute]], end.[[Second]], end.[[Millisecond]], end.[[Microsecond]], end.[[Nanosecond]]).
-            (start.as_nanoseconds()?, end.as_nanoseconds()?)
+            // NOTE: Wall-clock readings up to a day outside of the range of instants are valid here.
+            (
+                start.as_unchecked_nanoseconds(),
+                end.as_unchecked_nanoseconds(),
+            )
         };
 
         // 9. If endEpochNs = startEpochNs, throw a RangeError exception.
@@ -570,26 +579,28 @@ impl NormalizedDurationRecord {
         // 10. If sign < 0, let isNegative be negative; else let isNegative be positive.
         // 11. Let unsignedRoundingMode be GetUnsignedRoundingMode(roundingMode, isNegative).
 
-        // NOTE(nekevss): Step 12..13 could be problematic...need tests
-        // and verify, or completely change the approach involved.
-        // TODO(nekevss): Validate that the `f64` casts here are valid in all scenarios
         // 12. Let progress be (destEpochNs - startEpochNs) / (endEpochNs - startEpochNs).
         // 13. Let total be r1 + progress × increment × sign.
-        let progress =
-            (dest_epoch_ns - start_epoch_ns.0) as f64 / (end_epoch_ns.0 - start_epoch_ns.0) as f64;
-        let total = r1 as f64
-            + progress * options.increment.get() as f64 * f64::from(sign.as_sign_multiplier());
-
-        // TODO: Test and verify that `IncrementRounder` handles the below case.
-        // NOTE(nekevss): Below will not return the calculated r1 or r2, so it is imporant to not use
-        // the result beyond determining rounding direction.
         // 14. NOTE: The above two steps cannot be implemented directly using floating-point arithmetic.
-        // This division can be implemented as if constructing Normalized Time Duration Records for the denominator
-        // and numerator of total and performing one division operation with a floating-point result.
+        // `total` is kept as the exact fraction total_numerator / denominator.
+        let increment = i128::from(options.increment.get());
+        let span = end_epoch_ns - start_epoch_ns;
+        let denominator = span.abs();
+        let progress_numerator = (dest_epoch_ns - start_epoch_ns) * span.signum();
+        let total_numerator = r1 * denominator
+            + i128::from(sign.as_sign_multiplier()) * increment * progress_numerator;
+        let total = (total_numerator / denominator) as f64
+            + (total_numerator % denominator) as f64 / denominator as f64;
+
         // 15. Let roundedUnit be ApplyUnsignedRoundingMode(total, r1, r2, unsignedRoundingMode).
-        let rounded_unit =
-            IncrementRounder::from_signed_num(total, options.increment.as_extended_increment())?
-                .round(options.rounding_mode);
+        // NOTE: Rounding the fraction to a multiple of the increment is rounding its numerator to
+        // a multiple of increment × denominator.
+        let rounded_unit = IncrementRounder::<i128>::from_signed_num(
+            total_numerator,
+            NonZeroU128::new((increment * denominator).unsigned_abs()).temporal_unwrap()?,
+        )?
+        .round(options.rounding_mode)
+            / denominator;
 
         // 16. If roundedUnit - total < 0, let roundedSign be -1; else let roundedSign be 1.
         // 19. Return Duration Nudge Result Record { [[Duration]]: resultDuration, [[Total]]: total, [[NudgedEpochNs]]: nudgedEpochNs, [[DidExpandCalendarUnit]]: didExpandCalendarUnit }.
@@ -604,7 +615,7 @@ impl NormalizedDurationRecord {
                     NormalizedTimeDuration::default(),
                 )?,
                 total: Some(FiniteF64::try_from(total)?),
-                nudge_epoch_ns: end_epoch_ns.0,
+                nudge_epoch_ns: end_epoch_ns,
                 expanded: true,
             })
         // 18. Else,
@@ -618,7 +629,7 @@ impl NormalizedDurationRecord {
                     NormalizedTimeDuration::default(),
                 )?,
                 total: Some(FiniteF64::try_from(total)?),
-                nudge_epoch_ns: start_epoch_ns.0,
+                nudge_epoch_ns: start_epoch_ns,
                 expanded: false,
             })
         }
@@ -819,10 +830,10 @@ impl NormalizedDurationRecord {
         let mut smallest_unit = smallest_unit + 1;
         // 7. Let done be false.
         // 8. Repeat, while unitIndex ≤ largestUnitIndex and done is false,
-        while smallest_unit != Unit::Auto && largest_unit < smallest_unit {
+        while smallest_unit != Unit::Auto && smallest_unit <= largest_unit {
             // a. Let unit be the value in the "Singular" column of Table 22 in the row whose ordinal index is unitIndex.
             // b. If unit is not "week", or largestUnit is "week", then
-            if smallest_unit == Unit::Week || largest_unit != Unit::Week {
+            if smallest_unit == Unit::Week && largest_unit != Unit::Week {
                 smallest_unit = smallest_unit + 1;
                 continue;
             }
@@ -904,16 +915,18 @@ impl NormalizedDurationRecord {
                 // end.[[Hour]], end.[[Minute]], end.[[Second]], end.[[Millisecond]], end.[[Microsecond]],
                 // end.[[Nanosecond]], calendarRec.[[Receiver]]).
                 // 2. Let endInstant be ? GetInstantFor(timeZoneRec, endDateTime, "compatible").
-                timezone.get_epoch_nanoseconds_for(end, Disambiguation::Compatible, provider)?
+                timezone
+                    .get_epoch_nanoseconds_for(end, Disambiguation::Compatible, provider)?
+                    .0
                 // 3. Let endEpochNs be endInstant.[[Nanoseconds]].
                 // vii. Else,
             } else {
                 // 1. Let endEpochNs be GetUTCEpochNanoseconds(end.[[Year]], end.[[Month]], end.[[Day]], end.[[Hour]],
                 // end.[[Minute]], end.[[Second]], end.[[Millisecond]], end.[[Microsecond]], end.[[Nanosecond]]).
-                end.as_nanoseconds()?
+                end.as_unchecked_nanoseconds()
             };
             // viii. Let beyondEnd be nudgedEpochNs - endEpochNs.
-            let beyond_end = nudge_epoch_ns - end_epoch_ns.0;
+            let beyond_end = nudge_epoch_ns - end_epoch_ns;
             // ix. If beyondEnd < 0, let beyondEndSign be -1; else if beyondEnd > 0, let beyondEndSign be 1; else let beyondEndSign be 0.
             // x. If beyondEndSign ≠ -sign, then
             if beyond_end.signum() != -i128::from(sign.as_sign_multiplier()) {
@@ -948,7 +961,11 @@ impl NormalizedDurationRecord {
             || (timezone_record.is_some() && options.smallest_unit == Unit::Day);
 
         // 4. If DurationSign(duration.[[Years]], duration.[[Months]], duration.[[Weeks]], duration.[[Days]], NormalizedTimeDurationSign(duration.[[NormalizedTime]]), 0, 0, 0, 0, 0) < 0, let sign be -1; else let sign be 1.
-        let sign = self.sign()?;
+        let sign = if self.sign()? == Sign::Negative {
+            Sign::Negative
+        } else {
+            Sign::Positive
+        };
 
         // 5. If irregularLengthUnit is true, then
         let nudge_result = if irregular_unit {
